@@ -9,7 +9,7 @@ EXTENDS AtsMC
 CONSTANT Tier
 
 P(k) == Dec(k * SCALE, "plain")
-R(n, sp) == Dec(n, sp)
+R(n, sp) == Dec(n * 100, sp)            \* a rate given in units of 0.0001
 
 Cfg0 == InstMsg("ats", "base", <<>>, <<"q1">>, <<"appr1">>, <<"exec1", "exec2">>,
                 FeeInfo("askfee1", R(5000, "plain")), FeeInfo("bidfee1", R(2500, "plain")), <<>>, <<>>, 0, 1)
